@@ -1,4 +1,6 @@
 import VermouthModel.C13_Reader
+import VermouthModel.C13_Mapping
+import VermouthModel.C13_Backmap
 import Generated.C13Tables
 open Proto C13
 
@@ -10,6 +12,8 @@ def reprJ : JVal → String
   | .bool b => if b then "b1" else "b0"
   | .null => "n"
   | .other r => "o" ++ r
+  | .choice l => "c" ++ "|".intercalate l
+  | .notP a => "p" ++ a
 
 def encAttrs (a : Attrs) : String :=
   let sorted := a.mergeSort (fun x y => strLe x.1 y.1)
@@ -22,6 +26,8 @@ def jvalOf (t : Tok) : Option JVal := do
   | [Tok.int 2, Tok.int b] => pure (.bool (b != 0))
   | [Tok.int 3] => pure .null
   | [Tok.int 4, Tok.str s] => pure (.other s)
+  | [Tok.int 5, l] => do pure (.choice (← strs? l))
+  | [Tok.int 6, Tok.str s] => pure (.notP s)
   | _ => none
 
 def attrsOf (t : Tok) : Option Attrs := do
@@ -33,6 +39,11 @@ def attrsOf (t : Tok) : Option Attrs := do
 def encInters (l : List Inter) : String :=
   let sorted := l.mergeSort (fun x y => strLe x.sect y.sect)
   encList (sorted.map fun it => encList [encStr it.sect, encList (it.atoms.map encStr), encList (it.params.map encStr)])
+
+def encIntersM (l : List Inter) : String :=
+  let sorted := l.mergeSort (fun x y => strLe x.sect y.sect)
+  encList (sorted.map fun it => encList [encStr it.sect, encList (it.atoms.map encStr), encList (it.params.map encStr),
+    match it.pmeta with | some (c, g) => encList [encStr c, encStr g] | none => encList []])
 
 def encNodes (c : Ctx) : String :=
   encList (c.nodes.map fun n => encList [encStr n.1, encAttrs n.2])
@@ -120,7 +131,7 @@ def handle (_ : Unit) (toks : List Tok) : Unit × String :=
         let ls ← strs? ls
         match readITP itpIdx itpTab ls with
         | some bs => pure (encList (bs.map fun (k, (_, c)) =>
-            encList [encOptStr k, encList (c.nodes.map fun n => encStr n.1), encInters c.inters]))
+            encList [encOptStr k, encList (c.nodes.map fun n => encStr n.1), encIntersM c.inters]))
         | none => pure "error"
     | [Tok.str "ffdisp", ls] => do
         -- dispatcher only (bodies), table and routes of the FF reader
@@ -134,6 +145,8 @@ def handle (_ : Unit) (toks : List Tok) : Unit × String :=
         match mapRun mapParams ls with
         | some s => pure (encList (s.out.map encBody))
         | none => pure "error"
+    | Tok.str "mapping" :: args => C13.Mapping.handleOp args
+    | Tok.str "backmap" :: args => C13.Backmap.handleOp args
     | _ => none
   ((), r.getD "bad-op")
 
